@@ -70,14 +70,26 @@ Observing == Len(hist) > 0 /\ hist[Len(hist)].op \in {"Decrypt", "Indep"}
 Emit == (Mode = "tickets" /\ Len(hist) = MaxLen /\ Observing) => PrintT(<<"SCN", ToJson([ops |-> hist])>>)
 
 -----------------------------------------------------------------------------
-\* forged sessions: the grid of supplied parameters (Mode = "forge"; every initial state is one scenario)
-CONSTANTS Versions, Suites, Hellos
+\* forged sessions: the grid of supplied parameters (Mode = "forge"; PrintT "FRG" per grid point) and the secrets whose
+\* accessor round trip is observed (PrintT "SEC")
+CONSTANTS Versions, Suites, Hellos,     \* TLS 1.0-1.2 part
+          Suites13, Hellos13,           \* TLS 1.3 part
+          ExtraLens13,                  \* PSK lengths tried besides the hash length of the suite
+          SecretLens                    \* secret lengths whose accessor round trip is observed
 Tls12Only == {49199, 49200, 52392, 156}      \* AEAD suites exist from TLS 1.2 on
-ForgeGrid == {g \in [vers : Versions, suite : Suites, hello : Hellos, ems : BOOLEAN, tems : BOOLEAN,
-                     sealed : BOOLEAN, samesecret : BOOLEAN, via : {"cache", "set"}, certs : BOOLEAN] :
+HashLen(suite) == IF suite = 4866 THEN 48 ELSE 32     \* TLS_AES_256_GCM_SHA384 : SHA-384, the others SHA-256
+SecVia == {"make", "set"}                    \* secret given to MakeClientSessionState / to SetMasterSecret
+ForgeGrid12 == {g \in [vers : Versions, suite : Suites, hello : Hellos, ems : BOOLEAN, tems : BOOLEAN,
+                     sealed : BOOLEAN, samesecret : BOOLEAN, via : {"cache", "set"}, certs : BOOLEAN, slen : {48}, secvia : SecVia] :
                 /\ g.vers = 771 \/ g.suite \notin Tls12Only
                 /\ g.hello = "Golang-0" \/ g.vers = 771   \* the browser parrots advertise TLS 1.2 and 1.3 only
                 /\ g.hello # "Golang-0" \/ g.via = "cache"} \* HelloGolang takes crypto/tls's own path: SetSessionState is C20's subject
-ForgeEmit == Mode = "forge" => \A g \in ForgeGrid : PrintT(<<"FRG", ToJson(g)>>)
+ForgeGrid13 == {g \in [vers : {TLS13}, suite : Suites13, hello : Hellos13, ems : {FALSE}, tems : {FALSE},
+                     sealed : BOOLEAN, samesecret : BOOLEAN, via : {"cache"}, certs : BOOLEAN,
+                     slen : ExtraLens13 \cup {32, 48}, secvia : SecVia] :
+                g.slen \in ExtraLens13 \cup {HashLen(g.suite)}}
+ForgeGrid == ForgeGrid12 \cup ForgeGrid13
+ForgeEmit == Mode = "forge" => /\ \A g \in ForgeGrid : PrintT(<<"FRG", ToJson(g)>>)
+                               /\ \A n \in SecretLens, v \in SecVia : PrintT(<<"SEC", ToJson([len |-> n, secvia |-> v])>>)
 ASSUME ForgeEmit
 =============================================================================
